@@ -1,7 +1,7 @@
 (* C09 -- every guarded step preserves the invariant: the case analysis over the program points. *)
 From Coq Require Import List ZArith Bool Arith Lia.
 From Model Require Import CacheConc CacheConcSpec.
-From Proofs Require Import CacheConcBase CacheConcFields CacheConcIdent CacheConcSteps CacheConcInv.
+From Proofs Require Import CacheConcBase CacheConcFields CacheConcIdent CacheConcSteps CacheConcInv CacheConcNoc.
 Import ListNotations.
 
 Lemma case_cc : forall s t c p', Inv s -> t < s_n s ->
@@ -1193,6 +1193,198 @@ Proof.
   - intros i o e H. exact (hold_th_nontagged (s_thr s t) _ i o e H eq_refl eq_refl).
 Qed.
 
+
+(* ------------------------------------------------------------------ cache=False *)
+Lemma noc_strong_nil : forall s t, Aux s -> t < s_n s -> noc_only (t_pc (s_thr s t)) = true -> s_strong s = [].
+Proof. intros s t A Ht H. apply (aux_strong s A). eapply (aux_noc s A); eauto. Qed.
+
+(* ---- get, line 130: the unlocked look at the weak dict *)
+Lemma case_F130_some : forall s t o, Inv s -> Aux s -> t < s_n s -> t_pc (s_thr s t) = F130 ->
+  dget (s_weak s) (t_id (s_thr s t)) = Some o ->
+  Inv (put_thr s t (set_pc (set_val (s_thr s t) (deref s o) (s_epoch s (t_id (s_thr s t)))) F131)).
+Proof.
+  intros s t o Hinv Haux Ht Hpc W.
+  eapply inv_thr_step with (s := s) (t := t)
+    (new := match deref s o with Some o' => Some (t_id (s_thr s t), o', s_epoch s (t_id (s_thr s t))) | None => None end);
+    try reflexivity; thr_obl s t Hinv Ht Hpc.
+  - simpl. intros x E. unfold deref in E. destruct (aliveb s o); [injection E as <- | discriminate]. eapply inv_w_weak; eauto.
+  - simpl. intros o1 _ E. unfold deref in E. destruct (aliveb s o); [injection E as <- | discriminate]. eapply inv_key_weak; eauto.
+  - intros i o1 e [A | A]; [left; now left |]. right. unfold inflight in A. simpl in A.
+    destruct (t_exc (s_thr s t)); [discriminate |]. destruct (deref s o); [exact A | discriminate].
+  - intros i0 o0 e0 E. unfold deref in *. destruct (aliveb s o); [| discriminate]. injection E as <- <- <-. split; [reflexivity |]. right. now left.
+  - intros i0 o0 e0 _ x k Hx Hne D. exfalso.
+    assert (D1 : s_docache s = false) by (apply (aux_noc s Haux t Ht); now rewrite Hpc).
+    assert (D2 : s_docache s = true).
+    { apply (aux_doc s Haux x Hx). unfold deadw in D. destruct (t_pc (s_thr s x)); try discriminate; reflexivity. }
+    congruence.
+Qed.
+
+(* ---- get, line 137: the look at the weak dict under the lock *)
+Lemma case_F137_some : forall s t o, Inv s -> t < s_n s -> t_pc (s_thr s t) = F137 ->
+  dget (s_weak s) (t_id (s_thr s t)) = Some o ->
+  Inv (put_thr s t (set_pc (set_val (s_thr s t) (deref s o) (s_epoch s (t_id (s_thr s t)))) F141)).
+Proof.
+  intros s t o Hinv Ht Hpc W.
+  assert (Hx_t : forall x, x < s_n s -> holds (t_pc (s_thr s x)) = true -> x = t).
+  { intros x Hx A. eapply two_holders; eauto. now rewrite Hpc. }
+  eapply inv_thr_step with (s := s) (t := t)
+    (new := match deref s o with Some o' => Some (t_id (s_thr s t), o', s_epoch s (t_id (s_thr s t))) | None => None end);
+    try reflexivity; thr_obl s t Hinv Ht Hpc.
+  - simpl. intros x E. unfold deref in E. destruct (aliveb s o); [injection E as <- | discriminate]. eapply inv_w_weak; eauto.
+  - simpl. intros o1 _ E. unfold deref in E. destruct (aliveb s o); [injection E as <- | discriminate]. eapply inv_key_weak; eauto.
+  - intros i o1 e [A | A]; [left; now left |]. right. unfold inflight in A. simpl in A.
+    destruct (t_exc (s_thr s t)); [discriminate |]. destruct (deref s o); [exact A | discriminate].
+  - intros i0 o0 e0 E. unfold deref in *. destruct (aliveb s o); [| discriminate]. injection E as <- <- <-. split; [reflexivity |]. right. now left.
+  - intros i0 o0 e0 _ x k Hx Hne D. exfalso. apply Hne. apply Hx_t; [assumption | eapply deadw_holds; eauto].
+Qed.
+
+(* ---- get, line 131: if val is not None *)
+Lemma case_F131 : forall s t, Inv s -> t < s_n s -> t_pc (s_thr s t) = F131 ->
+  Inv (put_thr s t (set_pc (s_thr s t) (match t_val (s_thr s t) with Some _ => F132 | None => F135 end))).
+Proof.
+  intros s t Hinv Ht Hpc. destruct (t_val (s_thr s t)) eqn:V.
+  - apply inv_goto; try assumption; goto_side s Hinv t Ht Hpc. right. congruence.
+  - apply inv_goto; try assumption; goto_side s Hinv t Ht Hpc.
+Qed.
+
+(* ---- get, line 141: if val is None *)
+Lemma case_F141 : forall s t, Inv s -> t < s_n s -> t_pc (s_thr s t) = F141 ->
+  Inv (put_thr s t (set_pc (s_thr s t) (match t_val (s_thr s t) with None => F142 | Some _ => F144 end))).
+Proof.
+  intros s t Hinv Ht Hpc. destruct (t_val (s_thr s t)) eqn:V.
+  - apply inv_goto; try assumption; goto_side s Hinv t Ht Hpc. right. congruence.
+  - apply inv_goto; try assumption; goto_side s Hinv t Ht Hpc.
+Qed.
+
+(* ---- get, lines 132 / 145: return val *)
+Lemma case_return_val_noc : forall s t, Inv s -> t < s_n s ->
+  (t_pc (s_thr s t) = F132 \/ t_pc (s_thr s t) = F145) ->
+  Inv (put_thr s t (finish (s_thr s t)
+        (match t_val (s_thr s t) with Some o => RObj o (t_id (s_thr s t)) (t_ep (s_thr s t)) | None => RNone end))).
+Proof.
+  intros s t Hinv Ht Hpc.
+  assert (V : t_val (s_thr s t) <> None) by (apply (inv_valdef s Hinv t Ht); destruct Hpc as [-> | ->]; reflexivity).
+  destruct (t_val (s_thr s t)) as [o |] eqn:E; [| congruence].
+  eapply inv_finish with (s := s) (t := t); try reflexivity; try assumption;
+    try (match goal with |- xwinpc _ = false => first [rewrite Hpc; reflexivity | destruct Hpc as [-> | ->]; reflexivity] end).
+  - intros o1 _. reflexivity.
+  - apply lc_same; [reflexivity | simpl; destruct Hpc as [-> | ->]; reflexivity].
+  - apply wc_same; [reflexivity |]. intros o1 _. unfold wl. simpl.
+    split; intros (A & _); [discriminate | destruct Hpc as [P | P]; rewrite P in A; discriminate].
+  - unfold mov_of. destruct Hpc as [-> | ->]; reflexivity.
+  - split; [destruct (inv_w_thr s Hinv t Ht) as (Rv & _); now apply Rv |].
+    left. unfold inflight. rewrite E.
+    assert (X : t_exc (s_thr s t) = None).
+    { destruct (inv_exc s Hinv t Ht) as [A | (_ & [C | [C | C]])]; [exact A | destruct Hpc; congruence ..]. }
+    rewrite X. destruct Hpc as [-> | ->]; reflexivity.
+Qed.
+
+(* ---- get, lines 139 / 143: return None with the lock held; SQLObject.get goes on to load the row *)
+Lemma case_noc_miss : forall s t, Inv s -> Aux s -> t < s_n s ->
+  (t_pc (s_thr s t) = F139 \/ t_pc (s_thr s t) = F143) ->
+  Inv (put_thr s t (set_pc (s_thr s t) M951)).
+Proof.
+  intros s t Hinv Haux Ht Hpc.
+  assert (S : s_strong s = []) by (eapply noc_strong_nil; eauto; destruct Hpc as [-> | ->]; reflexivity).
+  destruct Hpc as [Hpc | Hpc]; apply inv_goto; try assumption; goto_side s Hinv t Ht Hpc;
+    try (intros _; right; rewrite S; reflexivity).
+Qed.
+
+(* ---- get, line 142: the dead entry goes (guard: seen_dead_still) *)
+Lemma case_F142 : forall s t od, Inv s -> Aux s -> t < s_n s -> t_pc (s_thr s t) = F142 ->
+  dget (s_weak s) (t_id (s_thr s t)) = Some od -> aliveb s od = false ->
+  Inv (put_thr (with_weak s (ddel (s_weak s) (t_id (s_thr s t)))) t (set_pc (s_thr s t) F143)).
+Proof.
+  intros s t od Hinv Haux Ht Hpc W D.
+  eapply inv_weak_del with (s := s) (t := t) (od := od); try reflexivity; try assumption.
+  eapply noc_strong_nil; eauto. now rewrite Hpc.
+Qed.
+
+(* ---- put, line 155 *)
+Lemma case_P155 : forall s t o, Inv s -> t < s_n s -> t_pc (s_thr s t) = P155 ->
+  t_val (s_thr s t) = Some o ->
+  Inv (put_thr (with_weak s (dset (s_weak s) (t_id (s_thr s t)) o)) t
+         (set_pc (set_val (s_thr s t) (Some o) (s_epoch s (t_id (s_thr s t)))) M956)).
+Proof.
+  intros s t o Hinv Ht Hpc V.
+  destruct (inv_w_thr s Hinv t Ht) as (Rv & Rs & Rl).
+  eapply inv_weak_set with (s := s) (t := t) (i := t_id (s_thr s t)) (o := o)
+    (new := Some (t_id (s_thr s t), o, s_epoch s (t_id (s_thr s t)))); try reflexivity;
+    try assumption; thr_obl s t Hinv Ht Hpc.
+  - apply (inv_sabs s Hinv t Ht). now rewrite Hpc.
+  - apply (inv_wabs s Hinv t Ht). now rewrite Hpc.
+  - now apply Rv.
+  - apply (inv_valkey s Hinv t o Ht); [now rewrite Hpc | assumption].
+  - unfold mov_of. now rewrite Hpc.
+  - unfold ref_ok. simpl. intros x E. injection E as <-. now apply Rv.
+  - simpl. intros o1 _ E. injection E as <-. apply (inv_valkey s Hinv t o Ht); [now rewrite Hpc | assumption].
+  - intros i o1 e [A | A]; [left; now left |]. right. unfold inflight in A. simpl in A.
+    destruct (t_exc (s_thr s t)); [discriminate | exact A].
+  - intros i0 o0 e0 E. injection E as <- <- <-. auto.
+Qed.
+
+(* ---- created without caching: the write under the lock (guarded: the cache has no entry for the new id) *)
+Lemma case_K183 : forall s t, Inv s -> t < s_n s -> t_pc (s_thr s t) = K183 ->
+  created_race s t = false ->
+  Inv (put_thr (with_weak s (dset (s_weak s) (t_id (s_thr s t)) (self_of (s_thr s t)))) t
+         (set_pc (set_val (s_thr s t) (Some (self_of (s_thr s t))) (s_epoch s (t_id (s_thr s t)))) K183r)).
+Proof.
+  intros s t Hinv Ht Hpc G.
+  destruct (inv_w_thr s Hinv t Ht) as (Rv & Rs & Rl).
+  assert (Sd : t_self (s_thr s t) <> None) by (apply (inv_selfdef s Hinv t Ht); now rewrite Hpc).
+  destruct (t_self (s_thr s t)) as [o |] eqn:So; [| congruence]. clear Sd.
+  assert (Eso : self_of (s_thr s t) = o) by (unfold self_of; now rewrite So). rewrite Eso.
+  unfold created_race in G.
+  destruct (dget (s_strong s) (t_id (s_thr s t))) eqn:G1; [discriminate |].
+  destruct (dget (s_weak s) (t_id (s_thr s t))) eqn:G2; [discriminate |].
+  eapply inv_weak_set with (s := s) (t := t) (i := t_id (s_thr s t)) (o := o)
+    (new := Some (t_id (s_thr s t), o, s_epoch s (t_id (s_thr s t)))); try reflexivity;
+    try assumption; thr_obl s t Hinv Ht Hpc.
+  - now apply Rs.
+  - apply (inv_selfkey s Hinv t o Ht); [now rewrite Hpc | assumption].
+  - unfold mov_of. now rewrite Hpc.
+  - simpl. intros o1 _ E. injection E as <-. apply (inv_selfkey s Hinv t o Ht); [now rewrite Hpc | assumption].
+  - intros i o1 e [A | A]; [left; now left |]. right. unfold inflight in A. simpl in A.
+    destruct (t_exc (s_thr s t)); [discriminate | exact A].
+  - intros i0 o0 e0 E. injection E as <- <- <-. auto.
+Qed.
+
+Lemma case_K183r : forall s t, Inv s -> t < s_n s -> t_pc (s_thr s t) = K183r ->
+  Inv (put_thr (with_lock (with_heap s (set_obj_init (s_heap s) (self_of (s_thr s t))) (s_nextobj s)) None) t
+         (finish (s_thr s t)
+            (match t_val (s_thr s t) with
+             | Some o => RObj o (t_id (s_thr s t)) (t_ep (s_thr s t)) | None => RNone end))).
+Proof.
+  intros s t Hinv Ht Hpc.
+  assert (X : t_exc (s_thr s t) = None) by (apply exc_none; try assumption; rewrite Hpc; discriminate).
+  assert (Hh : forall o, o_key (set_obj_init (s_heap s) (self_of (s_thr s t)) o) = o_key (s_heap s o) /\
+                         o_wlock (set_obj_init (s_heap s) (self_of (s_thr s t)) o) = o_wlock (s_heap s o)).
+  { intros o. unfold set_obj_init, upd. destruct (Nat.eqb o (self_of (s_thr s t))) eqn:E;
+      [apply Nat.eqb_eq in E; subst |]; split; reflexivity. }
+  eapply inv_finish with (s := s) (t := t); try reflexivity; try assumption;
+    try (match goal with |- xwinpc _ = false => rewrite Hpc; reflexivity end).
+  - intros o1 _. simpl. apply Hh.
+  - apply lc_release; [now rewrite Hpc | reflexivity | reflexivity].
+  - apply wc_same; [intros o1 _; simpl; apply Hh |]. intros o1 _. unfold wl. simpl. rewrite Hpc. simpl.
+    split; intros (A & _); discriminate.
+  - intros o1 _. simpl. apply Hh.
+  - unfold mov_of. now rewrite Hpc.
+  - destruct (t_val (s_thr s t)) as [o |] eqn:V; [| exact I].
+    split; [destruct (inv_w_thr s Hinv t Ht) as (Rv & _); now apply Rv |].
+    left. unfold inflight. now rewrite Hpc, X, V.
+Qed.
+
+(* ---- getAll without caching: all = [] *)
+Lemma case_L278 : forall s t, Inv s -> t < s_n s -> t_pc (s_thr s t) = L278 ->
+  Inv (put_thr s t (set_pc (set_iter (set_all (s_thr s t) []) None) L279)).
+Proof.
+  intros s t Hinv Ht Hpc.
+  eapply inv_thr_step with (s := s) (t := t) (new := None); try reflexivity; thr_obl s t Hinv Ht Hpc.
+  - simpl. intros o [[] | X]. exact (inv_w_all s Hinv t o Ht (or_intror X)).
+  - unfold iter_ok. simpl. repeat split; try discriminate.
+  - intros i o e H. exact (hold_th_nontagged (s_thr s t) _ i o e H eq_refl eq_refl).
+Qed.
+
 (* ------------------------------------------------------------------ the step lemma *)
 Lemma case_co : forall s t c p', Inv s -> t < s_n s ->
   (forall s1, Inv s1 -> s_thr s1 = s_thr s -> s_n s1 = s_n s -> s_strong s1 = s_strong s -> s_weak s1 = s_weak s ->
@@ -1202,9 +1394,9 @@ Proof.
   intros s t c p' Hinv Ht H. apply (H (with_co s c)); try reflexivity. now apply Inv_with_co.
 Qed.
 
-Lemma step_inv : forall s t s', Inv s -> guard s t = true -> step s t = Some s' -> Inv s'.
+Lemma step_inv : forall s t s', Inv s -> Aux s -> guard s t = true -> step s t = Some s' -> Inv s'.
 Proof.
-  intros s t s' Hinv Hg Hstep. unfold step in Hstep.
+  intros s t s' Hinv Haux Hg Hstep. unfold step in Hstep.
   destruct (Nat.ltb t (s_n s)) eqn:Hlt; simpl in Hstep; [| discriminate].
   apply Nat.ltb_lt in Hlt.
   unfold guard in Hg.
@@ -1426,5 +1618,40 @@ Proof.
         | apply (inv_w_all s Hinv t o Hlt); left; rewrite Hal; now right ]
       | simpl; apply exc_none; try assumption; rewrite Hpc; discriminate
       | unfold mov_of; rewrite Hpc; reflexivity ] ]
+  (* ---- cache=False *)
+  | _ = F130 =>
+    destruct (dget (s_weak s) (t_id (s_thr s t))) eqn:W;
+    [ unfold goto in Hstep; inversion Hstep; subst; now apply case_F130_some
+    | do_goto s Hinv t Hlt Hpc Hstep ]
+  | _ = F131 => unfold goto in Hstep; inversion Hstep; subst; now apply case_F131
+  | _ = F132 => inversion Hstep; subst; apply case_return_val_noc; auto
+  | _ = F145 => inversion Hstep; subst; apply case_return_val_noc; auto
+  | _ = F137 =>
+    destruct (dget (s_weak s) (t_id (s_thr s t))) eqn:W;
+    [ unfold goto in Hstep; inversion Hstep; subst; now apply case_F137_some
+    | do_goto s Hinv t Hlt Hpc Hstep; right; exact W ]
+  | _ = F139 => unfold goto in Hstep; inversion Hstep; subst; apply case_noc_miss; auto
+  | _ = F143 => unfold goto in Hstep; inversion Hstep; subst; apply case_noc_miss; auto
+  | _ = F141 => unfold goto in Hstep; inversion Hstep; subst; now apply case_F141
+  | _ = F142 =>
+    unfold seen_dead_still in Hg;
+    destruct (dget (s_weak s) (t_id (s_thr s t))) as [od |] eqn:W; [| discriminate Hg];
+    apply negb_true_iff in Hg;
+    unfold goto in Hstep; inversion Hstep; subst; eapply case_F142; eauto
+  | _ = P155 =>
+    destruct (t_val (s_thr s t)) eqn:V;
+    [ unfold goto in Hstep; inversion Hstep; subst; now apply case_P155
+    | exfalso; apply (inv_valdef s Hinv t Hlt); [now rewrite Hpc | exact V] ]
+  | _ = K183 => unfold goto in Hstep; inversion Hstep; subst; apply case_K183; try assumption; now apply negb_true_iff
+  | _ = K183r =>
+    unfold release in Hstep; simpl in Hstep;
+    assert (L : s_lock s = Some t) by (apply (inv_lock s Hinv t Hlt); rewrite Hpc; reflexivity);
+    rewrite L in Hstep; inversion Hstep; subst; now apply case_K183r
+  | _ = A249 =>
+    unfold xall_return in Hstep; destruct (t_mex (s_thr s t));
+    [ do_goto s Hinv t Hlt Hpc Hstep
+    | inversion Hstep; subst; apply case_finish_none; try assumption; try (rewrite Hpc; reflexivity);
+      unfold mov_of; rewrite Hpc; reflexivity ]
+  | _ = L278 => unfold goto in Hstep; inversion Hstep; subst; now apply case_L278
   end.
 Qed.
